@@ -1,5 +1,5 @@
 From Coq Require Import List NArith Bool.
-From LTV.C17 Require Import Model Proofs ProofsA ProofsB ProofsC ProofsD ProofsE ProofsF ProofsG ProofsH ProofsI ProofsJ ProofsK ProofsL.
+From LTV.C17 Require Import Model Proofs ProofsA ProofsB ProofsC ProofsD ProofsE ProofsF ProofsG ProofsH ProofsI ProofsJ ProofsK ProofsL ProofsM.
 Import ListNotations.
 
 (* Conventions: all theorems quantify over ALL client programs [progs], callback bodies [bds], id counts and
@@ -144,11 +144,36 @@ Theorem runs_is_count : forall u l,
 Proof. exact ProofsF.runs_is_count. Qed.
 Print Assumptions runs_is_count.
 
-(* FIFO_PER_KIND - PARTIAL: proved: a post appends at the tail of the queue of its kind and leaves the
-   other queue alone; a dispatch takes the whole interrupt queue (else, unless only_interrupt, the whole
-   normal queue) in order, and IBatch is consumed head first (Model.step). MISSING: the trace-level
-   statement over the log; exercised by the oracle class "fifo". *)
-Theorem fifo_per_kind_partial :
+(* FIFO_PER_KIND (trace level, ALL programs and schedules, any number of threads, including a thread posting to itself).
+   A callback's uid is (poster, the poster's post counter at the time of the post), so [snd u] is the poster's post order
+   (posts_in_counter_order: the EvPost events of one poster appear in the log in strictly increasing counter order).
+   fifo_per_kind: the callbacks that poster P put into target T's queue of kind K have run on T in strictly increasing
+   counter order ([run_keys T K P log] = the counters of the events [EvRun u T _ K] with [fst u = P], oldest first).
+   The invariant behind it (ProofsM.finv): run log ++ running/batched entries of T ++ T's queue of kind K ++ the entry P
+   is pushing, restricted to (P, T, K), is strictly increasing and below P's post counter; a step of T only deletes
+   elements (cancelled entries are skipped), a step of P only appends, other threads do not touch it.
+   fifo_per_kind_trace: the same on the event log alone. *)
+Theorem posts_in_counter_order : forall progs nids bds c P,
+  P < length progs -> reachable (init progs nids bds) c -> Sorted.StronglySorted lt (ProofsM.pk P (log c)).
+Proof. exact ProofsM.posts_in_counter_order. Qed.
+Print Assumptions posts_in_counter_order.
+Theorem fifo_per_kind : forall progs nids bds c P T K,
+  P < length progs -> T < length progs ->
+  reachable (init progs nids bds) c -> crashed c = false ->
+  Sorted.StronglySorted lt (ProofsM.run_keys T K P (log c)).
+Proof. exact ProofsM.fifo_per_kind. Qed.
+Print Assumptions fifo_per_kind.
+Theorem fifo_per_kind_trace : forall progs nids bds c T K u1 u2 a1 a2 a3 l1 l2 l3 t1 t2 k1 k2 o1 o2 o3 o4,
+  fst u1 < length progs -> T < length progs -> fst u2 = fst u1 ->
+  reachable (init progs nids bds) c -> crashed c = false ->
+  log c = a1 ++ EvPost u2 t2 k2 o2 :: a2 ++ EvPost u1 t1 k1 o1 :: a3 ->
+  log c = l1 ++ EvRun u1 T o3 K :: l2 ++ EvRun u2 T o4 K :: l3 ->
+  False.
+Proof. exact ProofsM.fifo_per_kind_trace. Qed.
+Print Assumptions fifo_per_kind_trace.
+(* the queue mechanics used above: a post appends at the tail of the queue of its kind and leaves the other queue
+   alone; a dispatch takes whole queues in order *)
+Theorem fifo_queue_mechanics :
   (forall b k e,
     (k = KNormal -> qn (fst (push_entry b k e)) = qn b ++ [e] /\ qi (fst (push_entry b k e)) = qi b) /\
     (k = KIntr -> qi (fst (push_entry b k e)) = qi b ++ [e] /\ qn (fst (push_entry b k e)) = qn b)) /\
@@ -157,7 +182,7 @@ Theorem fifo_per_kind_partial :
       batch = (if ti then qi b else []) ++ (if tn then qn b else []) /\
       qi b1 = (if ti then [] else qi b) /\ qn b1 = (if tn then [] else qn b)).
 Proof. split. exact ProofsE.push_appends. exact ProofsE.dispatch_takes_queue_in_order. Qed.
-Print Assumptions fifo_per_kind_partial.
+Print Assumptions fifo_queue_mechanics.
 
 (* FIRST_PUSH_INTERRUPTS (trace level, ALL programs and schedules, any number of threads): a post that pushed into an
    empty queue of its kind ([EvPushed u tgt k true]) and has returned ([EvPostRet u]) has called Poll::do_interrupt on
